@@ -294,7 +294,7 @@ def cases(rng, tier):
                 for ss, pa in ((False, False), (True, True)):
                     yield _c(u, ["norm", name, seed], ss, pa)
     # seeded random: random base (itself possibly transformed), one transformation of the family
-    n = 6000 if quick else 150000
+    n = 20000 if quick else 200000
     for _ in range(n):
         u = nc.random_url(rng)
         if rng.random() < 0.3:
